@@ -18,14 +18,14 @@ enum Path { P_PARSE_VERIFY = 0, P_BLOCKING = 1, P_ASYNC = 2, P_COUNT = 3 };
 static const char *kKindName[] = {"aggregation", "extension", "aggr-config", "ext-config"};
 static const char *kPathName[] = {"parse+verify", "blocking-client", "async-service"};
 
-struct Scn { int otherAlg = 1; int kind, ver, macAlg; std::string login, key; Bytes doc; uint64_t t, p; };
+struct Scn { bool hdrCb = false; uint64_t inst = 0, msg = 0; int otherAlg = 1; int kind, ver, macAlg; std::string login, key; Bytes doc; uint64_t t, p; };
 struct Content { bool delivered = false; uint64_t reqId = 0, status = 0; size_t chains = 0; Bytes firstInput; uint64_t pubTime = 0, aggrTime = 0; uint64_t cfgA = 0, cfgB = 0; bool operator==(const Content &o) const { return reqId == o.reqId && status == o.status && chains == o.chains && firstInput == o.firstInput && pubTime == o.pubTime && aggrTime == o.aggrTime && cfgA == o.cfgA && cfgB == o.cfgB; } };
 
 static Scn genScn(Dec &d) {
     Scn s; s.kind = (int)d.pick(4); s.ver = (s.kind >= 2) ? 2 : (d.pick(3) == 0 ? 1 : 2); static const int macs[] = {1, 1, 5, 4, 2}; s.macAlg = macs[d.pick(5)]; s.otherAlg = macs[d.pick(5)]; // the other service (aggregator vs extender) is configured independently
     unsigned ll = 1 + d.pick(8); for (unsigned i = 0; i < ll; i++) s.login.push_back((char)('a' + d.pick(26)));
     static const unsigned kls[] = {1, 5, 20, 63, 64, 65, 127, 128, 129, 200}; unsigned kl = kls[d.pick(10)]; for (unsigned i = 0; i < kl; i++) s.key.push_back((char)('A' + (i * 7 + d.pick(3)) % 50));
-    s.doc.assign(33, 0); s.doc[0] = 1; for (size_t i = 1; i < 33; i++) s.doc[i] = d.byte(); s.t = 1500000000 + d.pick(1000000); s.p = s.t + 1 + d.pick(100000); return s;
+    s.doc.assign(33, 0); s.doc[0] = 1; for (size_t i = 1; i < 33; i++) s.doc[i] = d.byte(); s.t = 1500000000 + d.pick(1000000); s.p = s.t + 1 + d.pick(100000); s.hdrCb = d.pick(3) == 0; s.inst = 1 + d.pick(70000); s.msg = 1 + d.pick(300); return s;
 }
 // the reference server's reply for request id `rid`; also reports the content it carries
 static Bytes buildReply(const Scn &s, Dec &d, uint64_t rid, Content &want, const std::string &keyOverride, int macOverride, int verOverride, bool withHeader, bool withMac, int padTo = 0) {
@@ -52,7 +52,11 @@ static void extContent(KSI_ExtendResp *r, Content &c) {
     KSI_CalendarHashChain *cc = nullptr; KSI_ExtendResp_getCalendarHashChain(r, &cc); if (cc) { KSI_Integer *pt = nullptr, *at = nullptr; KSI_DataHash *ih = nullptr; KSI_CalendarHashChain_getPublicationTime(cc, &pt); KSI_CalendarHashChain_getAggregationTime(cc, &at); KSI_CalendarHashChain_getInputHash(cc, &ih); c.pubTime = KSI_Integer_getUInt64(pt); c.aggrTime = KSI_Integer_getUInt64(at); c.firstInput = imprintOf(ih); }
     KSI_Config *cf = nullptr; KSI_ExtendResp_getConfig(r, &cf); if (cf) { KSI_Integer *a = nullptr, *b = nullptr; KSI_Config_getMaxRequests(cf, &a); KSI_Config_getCalendarFirstTime(cf, &b); c.cfgA = KSI_Integer_getUInt64(a); c.cfgB = KSI_Integer_getUInt64(b); }
 }
+// request-header callback of the application: sets instance and message id; the MAC of the request must cover the header as sent
+static uint64_t g_cbInst = 0, g_cbMsg = 0;
+static int headerCallback(KSI_Header *hdr) { KSI_CTX *ctx = KSI_Header_getCtx(hdr); KSI_Integer *a = nullptr, *b = nullptr; KSI_Integer_new(ctx, g_cbInst, &a); KSI_Integer_new(ctx, g_cbMsg, &b); KSI_Header_setInstanceId(hdr, a); KSI_Header_setMessageId(hdr, b); return KSI_OK; }
 static void setupCtx(KSI_CTX *ctx, const Scn &s) {
+    if (s.hdrCb) { g_cbInst = s.inst; g_cbMsg = s.msg; KSI_CTX_setRequestHeaderCallback(ctx, headerCallback); }
     KSI_CTX_setAggregator(ctx, "ksi+tcp://agg.example.test:3333", s.login.c_str(), s.key.c_str()); KSI_CTX_setExtender(ctx, "ksi+tcp://ext.example.test:4444", s.login.c_str(), s.key.c_str());
     KSI_CTX_setOption(ctx, KSI_OPT_AGGR_PDU_VER, (void *)(size_t)s.ver); KSI_CTX_setOption(ctx, KSI_OPT_EXT_PDU_VER, (void *)(size_t)s.ver); bool aggrKind = s.kind == K_AGGR || s.kind == K_AGGR_CONF; KSI_CTX_setOption(ctx, KSI_OPT_AGGR_HMAC_ALGORITHM, (void *)(size_t)(aggrKind ? s.macAlg : s.otherAlg)); KSI_CTX_setOption(ctx, KSI_OPT_EXT_HMAC_ALGORITHM, (void *)(size_t)(aggrKind ? s.otherAlg : s.macAlg));
 }
@@ -68,7 +72,8 @@ static Content deliver(const Scn &s, int path, const std::function<Bytes(uint64_
     Server srv; Bytes keyB(s.key.begin(), s.key.end());
     srv.respond = [&](const Bytes &req, int) -> Bytes { ReqInfo ri = parseRequest(req);
         if (!ri.ok) reqProblem = "request malformed: " + ri.why; else if (ri.version != s.ver) reqProblem = "request PDU version differs from the configured one"; else if (ri.loginId != s.login) reqProblem = "request login id differs";
-        else if (!macValid(ri, keyB, s.macAlg)) reqProblem = "request MAC does not verify under the endpoint key and configured algorithm (reference HMAC over the authenticated range)";
+        else if (!macValid(ri, keyB, s.macAlg)) reqProblem = std::string("request MAC does not verify under the endpoint key and configured algorithm (reference HMAC over the authenticated range)") + (s.hdrCb ? " [header callback set]" : "");
+        else if (s.hdrCb && path == P_BLOCKING && (!ri.hasInst || ri.instId != s.inst || !ri.hasMsg || ri.msgId != s.msg)) reqProblem = "header callback ids missing from the request header";
         else if (aggr && !conf && (!ri.hasHash || ri.hash != s.doc)) reqProblem = "request hash differs"; else if (!aggr && !conf && (!ri.hasAggrTime || ri.aggrTime != s.t)) reqProblem = "request aggregation time differs";
         return makeReply(ri.reqId, want); };
     srv.attach();
@@ -137,7 +142,7 @@ void harness_case(Dec &d, Case &c) {
         KSI_free(raw); return;
     }
     // ---- responses: unmodified, and altered in one of several ways, through one delivery path
-    Scn s = genScn(d); int path = (int)d.pick(P_COUNT); unsigned mut = d.pick(10); Bytes seedBytes = d.bytes(24); std::string problem; Content want, got; Bytes orig, altered; std::string what; long flipPos = -1;
+    Scn s = genScn(d); int path = (int)d.pick(P_COUNT); unsigned mut = d.pick(11); Bytes seedBytes = d.bytes(24); std::string problem; Content want, got; Bytes orig, altered; std::string what; long flipPos = -1;
     auto original = [&](uint64_t rid, Content &w) { Dec d2(seedBytes.data(), seedBytes.size()); return buildReply(s, d2, rid, w, "", -1, 0, true, true); };
     std::vector<uint8_t> r1 = d.bytes(6);
     auto mutated = [&](uint64_t rid, Content &w) -> Bytes { Bytes o = original(rid, w); orig = o; Bytes a = o; Dec dm(r1.data(), r1.size());
@@ -150,6 +155,11 @@ void harness_case(Dec &d, Case &c) {
         case 6: { Content w2; Dec d2(seedBytes.data(), seedBytes.size()); what = "other-algorithm MAC (correct under that algorithm)"; a = buildReply(s, d2, rid, w2, "", s.macAlg == 1 ? 5 : 1, 0, true, true); break; }
         case 7: { Content w2; Dec d2(seedBytes.data(), seedBytes.size()); if (s.kind >= 2) { what = "no-MAC"; a = buildReply(s, d2, rid, w2, "", -1, 0, true, false); } else { what = "other-PDU-version"; a = buildReply(s, d2, rid, w2, "", -1, s.ver == 1 ? 2 : 1, true, true); } break; }
         case 8: { Content w2; Dec d2(seedBytes.data(), seedBytes.size()); bool hdr = dm.flag(); what = hdr ? "no-header" : "no-MAC"; a = buildReply(s, d2, rid, w2, "", -1, 0, !hdr, hdr); break; }
+        case 10: { // v1 only: a replayed, correctly MACed *request* (header || request element || its MAC) with a freely chosen response element added - the MAC covers header and request only
+            if (s.ver != 1 || s.kind >= 2) { what = "unmodified"; break; } bool ag = s.kind == K_AGGR; Header hq; hq.login = s.login; Tlv rq(ag ? 0x201 : 0x301); rq.add(Tlv::u64(0x01, rid)); if (ag) rq.add(Tlv::raw(0x02, s.doc)); else { rq.add(Tlv::u64(0x02, s.t)); rq.add(Tlv::u64(0x03, s.p)); }
+            Bytes keyB(s.key.begin(), s.key.end()); Bytes rp = sealV1(ag ? 0x200 : 0x300, hq, rq, keyB, s.macAlg); Tlv top, otop; std::vector<Tlv> k1, k2; if (!decodeOne(rp, top) || !decodeList(top.payload.data(), top.payload.size(), k1) || !decodeOne(o, otop) || !decodeList(otop.payload.data(), otop.payload.size(), k2)) { what = "unmodified"; break; }
+            Tlv resp; bool have = false; for (auto &e : k2) if (e.tag == (ag ? 0x202u : 0x302u)) { resp = e; have = true; } if (!have) { what = "unmodified"; break; }
+            Tlv forged(ag ? 0x200 : 0x300); forged.nested = true; for (auto &e : k1) { forged.kids.push_back(e); if (e.tag == (ag ? 0x201u : 0x301u)) forged.kids.push_back(resp); } Bytes fb; if (!forged.encode(fb)) { what = "unmodified"; break; } a = fb; what = "replayed-request-with-added-response"; break; }
         default: { // splice: payload of this response under the MAC of another valid response
             Content w2; Bytes sd2 = seedBytes; sd2[0] ^= 0x55; Dec d2(sd2.data(), sd2.size()); Bytes other = buildReply(s, d2, rid, w2, "", -1, 0, true, true); const AlgInfo *ai = algInfo(s.macAlg); size_t dl = ai->digestLen; what = "splice (MAC of another response)";
             if (other.size() > dl && a.size() > dl) std::copy(other.end() - (long)dl, other.end(), a.end() - (long)dl); if (a == o) what = "unmodified"; break; }
